@@ -1346,12 +1346,14 @@ def decision_sites(body, local=0, ignore=None, matches=False):
                 rest = [v for v in allv if v not in [n for n, _ in targets]]
                 if t.get("else") is not None and rest:
                     targets.append(("|".join(sorted(rest)), t["else"]))
-                site = _BoolSite(body, i, t["d"]["p"][0], d[4] if len(d) > 4 and isinstance(d[4], int) else (t.get("line") or body.line))
                 for nm, tgt in targets:
                     others = set()
                     for n2, t2 in targets:
                         if t2 != tgt:
                             others |= ret_labels(body, t2, local)
+                    site = _BoolSite(body, i, t["d"]["p"][0], d[4] if len(d) > 4 and isinstance(d[4], int) else (t.get("line") or body.line))
+                    site.arm_target = tgt
+                    site.other_targets = [t2 for _, t2 in targets if t2 != tgt]
                     out.append((("match", (adt.split("::")[-1] + "::" + nm,), scrut, frozenset(ret_labels(body, tgt, local)), frozenset(others)), site))
     return out
 
